@@ -89,14 +89,15 @@ def tour_paths(g, max_len=60, hop=2):
 
 
 def check_and_replay(res, name, c, ov, invariants, properties, own, probe, depth_all=3, walks=1000, walk_len=25,
-                     shifts=(0,), before_replay=None):
+                     shifts=(0,), before_replay=None, pre=None):
     """(M) TLC on the instance, (C) its whole state graph replayed on the real classes.
 
     Every edge of the dumped graph is taken (tour_paths) once per rotation of the value kinds in `shifts`, then all
     short paths (from the initial state, or from every just-sealed tree when the instance is phased) and random walks.
     """
     desper = common.import_desper()
-    r, g = res.model_check('ResourcesMC', name, c, invariants=invariants, properties=properties, overrides=ov, dump=True)
+    r, g = pre or res.model_check('ResourcesMC', name, c, invariants=invariants, properties=properties, overrides=ov,
+                                  dump=True)
     if before_replay:
         before_replay()         # background TLC runs are joined before the replayer forks
     depth = int(c['MaxDepth'])
@@ -132,6 +133,15 @@ def check_and_replay(res, name, c, ov, invariants, properties, own, probe, depth
         res.sample({'config': name, 'kind': str(dict(g.states[s]['kind'])), 'cls': str(dict(g.states[s]['cls'])),
                     'calls': ['%s%s' % (n, tla.to_json(a)) for n, a in labs]})
     return g
+
+
+def dumps_in_parallel(res, configs, invariants, properties, workers=6):
+    """The dumped TLC runs of several instances side by side (threads; join before any fork).  name -> (result, graph)"""
+    from concurrent.futures import ThreadPoolExecutor
+    with ThreadPoolExecutor(len(configs)) as ex:
+        futs = {name: ex.submit(res.model_check, 'ResourcesMC', name, c, invariants=invariants, properties=properties,
+                                overrides=ov, dump=True, workers=workers) for name, (c, ov) in configs.items()}
+        return {name: f.result() for name, f in futs.items()}
 
 
 def switch_runs(res, runs):
